@@ -759,7 +759,9 @@ class BaseSetIndexSortValues(Expr):
 
     @property
     def npartitions(self):
-        return self.operand("npartitions") or len(self._divisions()) - 1
+        # The ``npartitions`` operand is only the requested number of partitions,
+        # duplicate quantiles can leave us with fewer divisions
+        return len(self.divisions) - 1
 
 
 class SetIndex(BaseSetIndexSortValues):
@@ -973,7 +975,7 @@ class SortValues(BaseSetIndexSortValues):
             self._divisions_ascending,
             upsample=self.upsample,
         )
-        if presorted:
+        if presorted and self._npartitions_input == self.frame.npartitions:
             return self.frame.divisions
         return (None,) * len(divisions)
 
